@@ -518,6 +518,7 @@ func purityRun(args []string) error {
 	out := fs.String("out", "", "output ndjson (traces)")
 	pair := fs.String("pair", "", "cold: op|obj")
 	reps := fs.Int("reps", 20, "conc: repetitions per scenario")
+	base := fs.Int("base", 0, "number the traces from base+1 (the scenarios of a run are spread over several processes)")
 	fs.Parse(args)
 	if *mode == "coldconc" {
 		return coldConcurrent(*opName, *modelsFile)
@@ -543,7 +544,7 @@ func purityRun(args []string) error {
 		return err
 	}
 	defer w.close()
-	n := 0
+	n := *base
 	return readNDJSON(*in, func(line []byte) error {
 		var rec struct {
 			Rec    string     `json:"rec"`
